@@ -499,6 +499,17 @@ func frameFacts(f *facts) {
 			return true
 		})
 	}
+	f.note["frame_overflow_condition"] = "multilinereader.go checkOverflow: the condition under which nothing is done (room for another record of the soft limit), and processBuffer calls it last"
+	var oc []string
+	if fd := fn("input/tcplistener/multilinereader.go", "checkOverflow", "multiLineReader"); fd != nil && fd.Body != nil && len(fd.Body.List) > 0 {
+		if is, ok := fd.Body.List[0].(*ast.IfStmt); ok && endsInReturn(is.Body) {
+			oc = append(oc, "return if "+src(is.Cond))
+		}
+	}
+	if fd := fn("input/tcplistener/multilinereader.go", "processBuffer", "multiLineReader"); fd != nil && fd.Body != nil && len(fd.Body.List) > 0 {
+		oc = append(oc, "processBuffer ends with "+src(fd.Body.List[len(fd.Body.List)-1]))
+	}
+	f.strs["frame_overflow_condition"] = oc
 	f.note["frame_soft_is_max_record"] = "tcplinelistener.go runConnection: newMultiLineReader(…, defs.ListenerLineBufferSize, defs.InputLogMaxRecordBytes, …)"
 	f.bool["frame_soft_is_max_record"] = nil
 	if fd := fn("input/tcplistener/tcplinelistener.go", "runConnection", "tcpLineListener"); fd != nil {
